@@ -1,10 +1,8 @@
 //! C06 - inserting a row or column places it exactly and keeps the rest (bounded-exhaustive).
 
-use std::collections::HashSet;
-
 use toodee::{TooDee, TooDeeOps};
 
-use super::array_bfs::{check_state, materialize};
+use super::array_bfs::{check_state, materialize_spare, valid_array};
 use super::elem::Elem;
 use crate::engine::ledger::{self, FaultIter, Tracked, TrackedZst};
 use crate::engine::util::{shapes, Model};
@@ -65,32 +63,6 @@ fn do_insert<E: Elem>(t: &mut TooDee<E>, op: &str, i: usize, items: Vec<E>, sour
     }
 }
 
-fn valid_array<E: Elem>(t: &TooDee<E>, c: &mut Case, what: &str) -> bool {
-    let (nc, nr) = (t.num_cols(), t.num_rows());
-    if nc.checked_mul(nr) != Some(t.data().len()) {
-        c.fail("invalid-after-reject:len", format!("{}: size ({},{}) but data().len() = {}", what, nc, nr, t.data().len()));
-        return false;
-    }
-    if (nc == 0) != (nr == 0) {
-        c.fail("invalid-after-reject:zero-rule", format!("{}: size ({},{})", what, nc, nr));
-        return false;
-    }
-    let mut ids = HashSet::new();
-    for e in t.data() {
-        if !e.sane() {
-            c.fail("invalid-after-reject:dead-cell", format!("{}: a cell holds a dead element {:?}", what, e));
-            return false;
-        }
-        if let Some(id) = e.ident() {
-            if !ids.insert(id) {
-                c.fail("invalid-after-reject:duplicate", format!("{}: element {} reachable twice", what, id));
-                return false;
-            }
-        }
-    }
-    true
-}
-
 fn run_shape<E: Elem>(c: usize, r: usize, ctx: &mut Ctx) {
     let labels: Vec<u32> = (0..(c * r) as u32).collect();
     for op in ["insert_row", "push_row", "insert_col", "push_col"] {
@@ -99,15 +71,15 @@ fn run_shape<E: Elem>(c: usize, r: usize, ctx: &mut Ctx) {
         let indices: Vec<usize> = if op.starts_with("push") { vec![dim] } else { (0..=dim + 1).collect() };
         for &i in &indices {
             for len in 0..=other + 1 {
-                for spare in [false, true] {
+                for spare in [0usize, 1, 2, 3, 5, 24] {
                     for source in 0..SOURCES.len() {
                         if source == 2 && len > 8 {
                             continue;
                         }
                         ctx.case(
-                            || format!("TooDee<{}> {}x{} {} {}({}, {} items from {})", E::NAME, c, r, if spare { "spare-capacity" } else { "exact-capacity" }, op, i, len, SOURCES[source]),
+                            || format!("TooDee<{}> {}x{} {} {}({}, {} items from {})", E::NAME, c, r, format!("spare-capacity={}", spare), op, i, len, SOURCES[source]),
                             |cs| {
-                                let mut t: TooDee<E> = materialize(c, r, &labels, spare);
+                                let mut t: TooDee<E> = materialize_spare(c, r, &labels, spare);
                                 let mut m: Model<u32> = Model::from_flat(c, r, &labels);
                                 let base = (c * r) as u32 + 100;
                                 let line: Vec<u32> = (0..len as u32).map(|j| base + j).collect();
@@ -212,7 +184,7 @@ impl Prop for C06P {
         true
     }
     fn rule(&self) -> String {
-        "every shape (0..=N)^2 x {insert_row, push_row, insert_col, push_col} x every index 0..=dim+1 x every supplied length 0..=otherdim+1 x element type {u32, Tracked (drop ledger), TrackedZst (zero-sized)} x {exact, spare} capacity x iterator source {Vec, custom exact-size double-ended iterator, array, Vec::drain}. \
+        "every shape (0..=N)^2 x {insert_row, push_row, insert_col, push_col} x every index 0..=dim+1 x every supplied length 0..=otherdim+1 x element type {u32, Tracked (drop ledger), TrackedZst (zero-sized)} x spare capacity {0, 1, 2, 3, 5, 24} (so that growth is needed, partially needed or not needed) x iterator source {Vec, custom exact-size double-ended iterator, array, Vec::drain}. \
          Valid per the statement (index <= dim and length == other dim, or array empty) => no panic, result equals the model insertion cell for cell, the dimension grew by one (or stayed (0,0)), ledger balanced; otherwise => panic, and the array is still valid (shape invariant, every cell live and distinct, droppable without a double drop). \
          A case is the full tuple; non-trivial = accepted insertion; distinct by the tuple."
             .into()
